@@ -230,7 +230,7 @@ func runC13Case(c *RunCtx, cs c13Case) {
 	}
 	// intrusion while the round is outstanding
 	nIntr := g.Bus.NumReqs()
-	var subject2 string
+	var subject2, subject3 string
 	intrRID := "q.items?w=9&z"
 	switch cs.Intrude {
 	case "subscribe":
@@ -241,10 +241,20 @@ func runC13Case(c *RunCtx, cs c13Case) {
 	case "queryevent":
 		subject2 = w.MutateQuery("q.items", func(d []Val) []Val { return append(d, P("second")) })
 		s.Quiesce()
+	case "burst":
+		// several messages queue up behind the lock: an event the gateway has
+		// no use for (the resource has query subscriptions only) and two query
+		// events - the second and third query event are then taken from the
+		// middle of the resource's work queue, each exactly once
+		g.Bus.Event("event.q.items.custom", nil, func() ([]byte, bool) { return []byte(`{"seq":0}`), true })
+		subject2 = w.MutateQuery("q.items", func(d []Val) []Val { return append(d, P("second")) })
+		subject3 = w.MutateQuery("q.items", func(d []Val) []Val { return append(d, P("third")) })
+		s.Quiesce()
+		c.Stat("c13_burst_behind_lock", 1)
 	}
 	if len(round) > 0 {
 		for _, r := range g.Bus.Reqs()[nIntr:] {
-			if r.Kind == "get" || (subject2 != "" && r.Subject == subject2) {
+			if r.Kind == "get" || (subject2 != "" && r.Subject == subject2) || (subject3 != "" && r.Subject == subject3) {
 				fail("handledDuringQueryLock", "request %s was made while query requests of the round were still unanswered", r.Subject)
 			}
 		}
@@ -285,7 +295,7 @@ func runC13Case(c *RunCtx, cs c13Case) {
 		if k < len(cs.QOrder)-1 && len(round) > 1 {
 			// still locked: nothing of the intruder may have progressed
 			for _, rq := range g.Bus.Reqs()[nIntr:] {
-				if rq.Kind == "get" || (subject2 != "" && rq.Subject == subject2) {
+				if rq.Kind == "get" || (subject2 != "" && rq.Subject == subject2) || (subject3 != "" && rq.Subject == subject3) {
 					fail("handledDuringQueryLock", "request %s was made before every query request of the round was answered", rq.Subject)
 				}
 			}
@@ -310,7 +320,7 @@ func runC13Case(c *RunCtx, cs c13Case) {
 		if !found {
 			fail("notResumed", "the subscribe issued during the query lock was not processed after the round completed")
 		}
-	case "queryevent":
+	case "queryevent", "burst":
 		found := false
 		for _, r := range g.Bus.Reqs()[nIntr:] {
 			if r.Subject == subject2 {
@@ -453,6 +463,32 @@ func runC13Case(c *RunCtx, cs c13Case) {
 		}
 		c.Stat("c13_resubscribe_phases", 1)
 	}
+	// every query event of the case: at most one query request per normalised
+	// query, and every one of them was handled (a query event received while
+	// the resource was locked is taken from the queue exactly once)
+	if s.ok {
+		perSubj := map[string]map[string]int{}
+		for _, r := range g.Bus.Reqs() {
+			if !strings.HasPrefix(r.Subject, "_QEVENT.") {
+				continue
+			}
+			var p struct {
+				Query string `json:"query"`
+			}
+			json.Unmarshal(r.Payload, &p)
+			if perSubj[r.Subject] == nil {
+				perSubj[r.Subject] = map[string]int{}
+			}
+			perSubj[r.Subject][p.Query]++
+			if perSubj[r.Subject][p.Query] == 2 {
+				fail("dupQueryRequest", "query %q was requested twice for the query event with subject %s", p.Query, r.Subject)
+			}
+		}
+		c.Stat("c13_query_event_subjects", int64(len(perSubj)))
+		if cs.Intrude == "burst" && aliveAfter > 0 && perSubj[subject3] == nil {
+			fail("notResumed", "the third query event (queued behind the lock after another query event) was never handled")
+		}
+	}
 	// convergence and protocol violations found by the generic monitors
 	res := s.Finish()
 	for _, v := range res.Viol {
@@ -508,7 +544,7 @@ func c13Enumerate(c *RunCtx) {
 			for _, gorder := range perms(len(raw)) {
 				for _, outs := range outSets {
 					for _, qorder := range perms(len(norms)) {
-						for _, intr := range []string{"none", "subscribe", "queryevent"} {
+						for _, intr := range []string{"none", "subscribe", "queryevent", "burst"} {
 							idx++
 							if !c.Mine(idx) {
 								continue
@@ -634,7 +670,7 @@ func c01QueryCases(c *RunCtx) {
 		for _, inflight := range []bool{false, true} {
 			for _, outcome := range []string{"events", "collection"} {
 				for _, mut := range []string{"prepend", "remove0", "append"} {
-					for _, intr := range []string{"none", "subscribe", "queryevent"} {
+					for _, intr := range []string{"none", "subscribe", "queryevent", "burst"} {
 						idx++
 						if !c.Mine(idx) {
 							continue
